@@ -546,7 +546,20 @@ func genC13(rt *rapid.T, st *Stats) *TreeCase {
 		sz = 3
 	}
 	genOptions(rt, tc.Opt, NodeIDs(tc.Opt.Edges), OptSpec{CBs: allCB, Lays: []int{LayNS}, Poss: poss, Rts: []int{RtPolyline},
-		Thorough: false, Virt: true, Sizes: sz, IntForNS: true, NSZero: false, LSZero: false, DefaultsOK: true})
+		Thorough: false, Virt: true, Sizes: sz, IntForNS: true, NSZero: true, LSZero: false, DefaultsOK: true})
+	// boundary: NodeSpacing 0 with zero-width nodes next to wide ones. Neighbours may then share an x, which is not a
+	// crossing - but nothing except the order constraints themselves keeps them in order (seeded/r5-m13 skipped the
+	// constraint when block width + spacing is 0). The oracle counts strict inversions only, so ties cannot alarm.
+	if !tc.Uniform && tc.Opt.Sizes != nil && chance(rt, "zero_spacing_zero_widths", 1, 8) {
+		tc.Opt.NS = ptr(0.0)
+		for _, id := range NodeIDs(tc.Opt.Edges) {
+			if rapid.Bool().Draw(rt, "zero_w") {
+				s := tc.Opt.Sizes[id]
+				s.W = 0
+				tc.Opt.Sizes[id] = s
+			}
+		}
+	}
 	return tc
 }
 
@@ -591,9 +604,10 @@ func checkC13(tc *TreeCase) *Outcome {
 	if !ok {
 		return o.failf("bad case: not a rooted tree with all edges pointing away from / toward the root")
 	}
-	if c.Rt != RtPolyline || c.LayerSpacing() <= 0 || c.NodeSpacing() <= 0 || c.Pos == PosBK || c.Lay != LayNS {
-		return o.failf("bad case: C13 is checked with default layering, Polyline routing, positive spacings, size-aware positioners")
+	if c.Rt != RtPolyline || c.LayerSpacing() <= 0 || c.NodeSpacing() < 0 || c.Pos == PosBK || c.Lay != LayNS {
+		return o.failf("bad case: C13 is checked with default layering, Polyline routing, a positive layer spacing, size-aware positioners")
 	}
+	o.classIf(c.NodeSpacing() == 0, "node_spacing=0")
 	l, perr := c.Run()
 	if perr != nil {
 		return o.failf("Layout panicked: %v", perr)
